@@ -4,7 +4,7 @@ k=json.load(open(p))
 k=[e for e in k if e.get("status")!="open"]
 def add(prop, kind, what, scenario="", match=""):
     k.append({"status":"open","property":prop,"kind":kind,"scenario":scenario,"match":match,"what":what})
-lost="subscribe/get/new request outstanding on a resource, then an unsubscribe for the same resource succeeds (it consumes the count taken at request time): the collector disposes the subscription and the outstanding request is never answered"
+lost="subscribe/get/new request outstanding on a resource, then an unsubscribe for the same resource succeeds (it consumes the count taken at request time): the subscription object is disposed either by that unsubscribe, dropping the waiting continuations, or later when requests ending in an error give their counts back one by one, and a request still waiting for the access verdict is then handed the disposed subscription; the outstanding request is never answered"
 add("C07", r"^unanswered-after-unsubscribe:", lost)
 add("C08", r"^unsubscribe-overlap:", "unsubscribe.X succeeds while subscribe.X is outstanding on a resource that stays held indirectly: the unsubscribe consumes the count taken at request time, then the subscribe succeeds; the client counts one direct subscription, the gateway none (same root cause as the lost response of C07)")
 for pp in ["C11","C13","C19"]:
@@ -24,6 +24,5 @@ add("C13", r"^C0[13]:after-unsend:", uns)
 add("C19", r"^C01:after-unsend:", uns)
 add("C06", r"^C03:after-unsend:", uns)
 add("C02", r"^event-after-get$", "get.<rid> answered while an event for the resource was queued during loading: the queued event is sent right after the get response although a get leaves no subscription")
-add("C19", r"^limit-exceeded:deferred-reaccess$", "a second system reset (or reaccess) arrives while the first re-check of a subscription is pending: the deferred second access request is sent outside of the reset throttle, exceeding the limit by one per such subscription")
 f=open(p,"w"); json.dump(k, f, indent=1); f.close()
 print(len(k),"entries")
